@@ -76,8 +76,15 @@ class Check(PropertyCheck):
         if rng.random() < 0.08:
             # scores of magnitude 10^9..10^15 that differ by a few units: comparisons are exact integer comparisons
             # (rules that read the float32 feature observers are left out: float32 is exact below 2^24 only)
-            big = 10 ** rng.choice([9, 12, 15])
-            jobs = [[(ms, big + d) for ms, d in job] for job in jobs]
+            big = rng.choice([10 ** 9, 10 ** 12, 10 ** 15, 2 ** 53, 2 ** 60])
+            if big >= 2 ** 53:
+                # beyond the exact range of doubles: some operations huge, some ordinary (times 2**53 + small must stay exact);
+                # the solver's default filter (dominated operations + non-idle machines) most of the time
+                jobs = [[(ms, big + d if rng.random() < 0.5 else d) for ms, d in job] for job in jobs]
+                if rng.random() < 0.7 and not gen.has_zero(jobs):
+                    f = ["dom", "nidle"]
+            else:
+                jobs = [[(ms, big + d) for ms, d in job] for job in jobs]
             family += "+near_huge"
             exact_only = True
         lines = ["new", instance_line(jobs), gen.filter_line(f)]
